@@ -1,6 +1,40 @@
 /* h_C20e.c -- the sort of events (event.c + wikisort.c): stability is
  * observable here because events with equal start differ in oid */
 #include "h_common.h"
+#include <string.h>
+#include "event.h"
+#if !defined REPLAY
+/* CBMC's memcpy/memmove models with a symbolic length run out of memory even
+ * on 3 elements; every call in wikisort.c copies whole elements, so the model
+ * here copies element-wise (stated in the evidence as an assumption) */
+static void *h_memcpy(void *restrict d, const void *restrict s, size_t n)
+{
+	echs_event_t *dp = d;
+	const echs_event_t *sp = s;
+	for (size_t i = 0; i < n / sizeof(*dp); i++) {
+		dp[i] = sp[i];
+	}
+	return d;
+}
+static void *h_memmove(void *d, const void *s, size_t n)
+{
+	echs_event_t *dp = d;
+	const echs_event_t *sp = s;
+	const size_t k = n / sizeof(*dp);
+	if (dp <= sp) {
+		for (size_t i = 0; i < k; i++) {
+			dp[i] = sp[i];
+		}
+	} else {
+		for (size_t i = k; i > 0; i--) {
+			dp[i - 1] = sp[i - 1];
+		}
+	}
+	return d;
+}
+# define memcpy	h_memcpy
+# define memmove	h_memmove
+#endif	/* !REPLAY */
 #include "event.c"
 
 #if !defined SORT_N
@@ -39,4 +73,123 @@ void h_C20_sort_events(void)
 	}
 	if (k0 == k1 && k1 == k2) { SENTINEL("sort events ties"); }
 	SENTINEL("sort events");
+}
+
+/* ---- the three merge routines of the sort, one call each (bounded stand-in) ----
+ * array layout: [ pad | A | B | buffer ]; A and B are adjacent, each sorted;
+ * the oid carries the input position so that stability is observable */
+#if !defined MERGE_L
+# define MERGE_L	3
+#endif
+#if !defined MERGE_CSZ
+# define MERGE_CSZ	0
+#endif
+#define MERGE_N		(1 + 3 * MERGE_L)
+static void
+h_merge_setup(echs_event_t a[static MERGE_N], uint64_t key[static MERGE_N], size_t la, size_t lb)
+{
+	IN(uint64_t, k0); IN(uint64_t, k1); IN(uint64_t, k2); IN(uint64_t, k3); IN(uint64_t, k4);
+	IN(uint64_t, k5); IN(uint64_t, k6); IN(uint64_t, k7); IN(uint64_t, k8); IN(uint64_t, k9);
+	uint64_t ks[10] = {k0, k1, k2, k3, k4, k5, k6, k7, k8, k9};
+	for (size_t i = 0; i < MERGE_N; i++) {
+		a[i] = (echs_event_t){.from = {.u = ks[i]}, .oid = (echs_oid_t)(i + 1U)};
+		key[i] = ks[i];
+	}
+	for (size_t i = 1; i + 1 < 1 + la; i++) {
+		ASSUME(!echs_event_lt_p(a[i + 1], a[i]));
+	}
+	for (size_t i = 1 + la; i + 1 < 1 + la + lb; i++) {
+		ASSUME(!echs_event_lt_p(a[i + 1], a[i]));
+	}
+}
+static void
+h_merge_check(const echs_event_t a[static MERGE_N], const uint64_t key[static MERGE_N], size_t lo, size_t hi, bool stable)
+{
+	unsigned seen = 0U;
+	for (size_t i = lo; i < hi; i++) {
+		size_t tag = (size_t)a[i].oid - 1U;
+		ASSERT(lo <= tag && tag < hi, "merge: every element of the range is one of its inputs");
+		ASSERT(a[i].from.u == key[tag], "merge: elements are moved whole");
+		ASSERT(!((seen >> tag) & 1U), "merge: no input appears twice");
+		seen |= 1U << tag;
+		if (stable && i + 1 < hi) {
+			ASSERT(!echs_event_lt_p(a[i + 1], a[i]), "merge: result is ordered");
+			if (!echs_event_lt_p(a[i], a[i + 1])) {
+				ASSERT(a[i].oid < a[i + 1].oid, "merge: equal elements keep their order (A before B, and inside each)");
+			}
+		}
+	}
+}
+static void
+h_merge_frame(const echs_event_t a[static MERGE_N], const uint64_t key[static MERGE_N], size_t lo, size_t hi)
+{
+	for (size_t i = 0; i < MERGE_N; i++) {
+		if (i < lo || i >= hi) {
+			ASSERT(a[i].oid == (echs_oid_t)(i + 1U) && a[i].from.u == key[i], "merge: nothing outside the two ranges moves");
+		}
+	}
+}
+
+void h_C20_merge_in_place(void)
+{
+	echs_event_t a[MERGE_N], cache[MERGE_L];
+	uint64_t key[MERGE_N];
+	IN_RANGE(size_t, la, 0, MERGE_L);
+	IN_RANGE(size_t, lb, 0, MERGE_L);
+	const size_t csz = MERGE_CSZ;	/* Rotate without (0) or with (MERGE_L) the cache: one run each */
+	h_merge_setup(a, key, la, lb);
+	MergeInPlace(a, Range_new(1, 1 + la), Range_new(1 + la, 1 + la + lb), cache, csz);
+	h_merge_check(a, key, 1, 1 + la + lb, true);
+	h_merge_frame(a, key, 1, 1 + la + lb);
+	if (la == MERGE_L && lb == MERGE_L && a[1].oid != 2U) { SENTINEL("merge in place moved something"); }
+	SENTINEL("merge in place");
+}
+
+void h_C20_merge_external(void)
+{
+	echs_event_t a[MERGE_N], cache[MERGE_L];
+	uint64_t key[MERGE_N];
+	IN_RANGE(size_t, la, 0, MERGE_L);
+	IN_RANGE(size_t, lb, 0, MERGE_L);
+	h_merge_setup(a, key, la, lb);
+	/* the caller has copied A into the cache */
+	for (size_t i = 0; i < MERGE_L; i++) {
+		if (i < la) {
+			cache[i] = a[1 + i];
+		}
+	}
+	MergeExternal(a, Range_new(1, 1 + la), Range_new(1 + la, 1 + la + lb), cache, MERGE_L);
+	h_merge_check(a, key, 1, 1 + la + lb, true);
+	h_merge_frame(a, key, 1, 1 + la + lb);
+	if (la == MERGE_L && lb == MERGE_L && a[1].oid != 2U) { SENTINEL("merge external moved something"); }
+	SENTINEL("merge external");
+}
+
+void h_C20_merge_internal(void)
+{
+	echs_event_t a[MERGE_N];
+	uint64_t key[MERGE_N];
+	IN_RANGE(size_t, la, 0, MERGE_L);
+	IN_RANGE(size_t, lb, 0, MERGE_L);
+	const size_t bs = 1 + 2 * MERGE_L;	/* buffer at the end of the array */
+	h_merge_setup(a, key, la, lb);
+	/* the caller has swapped A into the buffer: A's slots hold the buffer's old content */
+	for (size_t i = 0; i < MERGE_L; i++) {
+		if (i < la) {
+			echs_event_t t = a[1 + i];
+			a[1 + i] = a[bs + i];
+			a[bs + i] = t;
+		}
+	}
+	MergeInternal(a, Range_new(1, 1 + la), Range_new(1 + la, 1 + la + lb), Range_new(bs, bs + la));
+	/* the merged range holds exactly the inputs of A and B, ordered and stable */
+	h_merge_check(a, key, 1, 1 + la + lb, true);
+	/* the buffer holds its old content in some order */
+	h_merge_check(a, key, bs, bs + la, false);
+	for (size_t i = 0; i < MERGE_N; i++) {
+		if (i < 1 || (i >= 1 + la + lb && i < bs) || i >= bs + la) {
+			ASSERT(a[i].oid == (echs_oid_t)(i + 1U) && a[i].from.u == key[i], "merge: nothing outside the ranges and the buffer moves");
+		}
+	}
+	SENTINEL("merge internal");
 }
